@@ -34,9 +34,9 @@ func VerifC05_Ids() {
 		id uint64
 		q  int
 	}
-	var alive []live
+	var alive, retired []live
 	for step := 0; step < L; step++ {
-		switch sym.Choice("op", 3) {
+		switch sym.Choice("op", 4) {
 		case 0: // enqueue
 			q := sym.Choice("queue", 2)
 			chain := []string{ChainA, ChainB}[q]
@@ -63,8 +63,47 @@ func VerifC05_Ids() {
 			err := env.Consensus.DeleteJob(env.Ctx, queues[alive[i].q], alive[i].id)
 			sym.Assert(err == nil, "remove-succeeds")
 			sym.Reach("removed")
+			retired = append(retired, alive[i])
 			alive = append(alive[:i], alive[i+1:]...)
+		case 3: // a replace aimed at an id that is not in that queue: one that was removed, or one that lives in the other chain's queue
+			var target live
+			if len(retired) > 0 && sym.Bool("target-was-removed") {
+				target = retired[sym.Choice("which-removed", len(retired))]
+			} else if len(alive) > 0 {
+				t := alive[sym.Choice("which", len(alive))]
+				target = live{t.id, 1 - t.q}
+			} else {
+				continue
+			}
+			chain := []string{ChainA, ChainB}[target.q]
+			cctx, commit := env.Ctx.CacheContext()
+			_, err := env.Consensus.PutMessageInQueue(cctx, queues[target.q], c05Msg(chain, 98), &consensus.PutOptions{MsgIDToReplace: target.id, RequireSignatures: true})
+			if err == nil {
+				commit()
+				sym.Reach("stray-replace-accepted")
+			} else {
+				sym.Reach("stray-replace-refused")
+			}
 		}
+		// what the queues hold is exactly the live messages: no id twice, no retired id back
+		n := 0
+		for q := range queues {
+			msgs, err := env.Consensus.GetMessagesFromQueue(env.Ctx, queues[q], 0)
+			if err != nil {
+				panic(err)
+			}
+			for _, m := range msgs {
+				n++
+				found := false
+				for _, a := range alive {
+					if a.id == m.GetId() && a.q == q {
+						found = true
+					}
+				}
+				sym.Assert(found, "queues-hold-only-live-messages-under-their-own-ids")
+			}
+		}
+		sym.Assert(n == len(alive), "every-id-is-in-exactly-one-queue")
 	}
 }
 
